@@ -45,6 +45,33 @@ func crafted() []string {
 	rq := fga.Req{Obj: "doc:1", Rel: "viewer", User: "user:x"}
 	out := []string{fmt.Sprintf("cfg 25 1 %s %s %s %s %s", m.Encode(), fga.EncodeAux(fga.Aux(m, ts, rq.User)),
 		fga.EncodeTuples("tuples", tuples), fga.EncodeTuples("ctx", nil), rq.Encode())}
+	// tuple-to-userset with several parent types, one of which needs deeper resolution than the weight-two
+	// fast path can offer: the strategy must not be offered (or must agree)
+	{
+		u := fga.Restr{Typ: "user"}
+		pm := &fga.Model{Types: []*fga.TypeDef{{Name: "user"},
+			{Name: "group", Rels: []*fga.RelDef{{Name: "member", Rewrite: this(), Restrs: []fga.Restr{u}}}},
+			{Name: "folder", Rels: []*fga.RelDef{{Name: "viewer", Rewrite: this(), Restrs: []fga.Restr{u}}}},
+			{Name: "org", Rels: []*fga.RelDef{{Name: "viewer", Rewrite: this(), Restrs: []fga.Restr{{Typ: "group", Rel: "member"}}}}},
+			{Name: "doc", Rels: []*fga.RelDef{
+				{Name: "parent", Rewrite: this(), Restrs: []fga.Restr{{Typ: "folder"}, {Typ: "org"}}},
+				{Name: "viewer", Rewrite: &fga.Rewrite{Kind: "ttu", Tupleset: "parent", Computed: "viewer"}}}}}}
+		pts, err := typesystem.NewAndValidate(context.Background(), pm.Proto(fgarun.ModelID))
+		if err != nil {
+			panic(err)
+		}
+		pt := []fga.Tuple{
+			{Obj: "doc:1", Rel: "parent", User: "org:o"}, {Obj: "org:o", Rel: "viewer", User: "group:g#member"},
+			{Obj: "group:g", Rel: "member", User: "user:x"}, {Obj: "doc:2", Rel: "parent", User: "folder:f"},
+			{Obj: "folder:f", Rel: "viewer", User: "user:x"}, {Obj: "doc:3", Rel: "parent", User: "folder:f"},
+			{Obj: "doc:3", Rel: "parent", User: "org:o"},
+		}
+		for _, o := range []string{"doc:1", "doc:2", "doc:3"} {
+			prq := fga.Req{Obj: o, Rel: "viewer", User: "user:x"}
+			out = append(out, fmt.Sprintf("cfg 25 1 %s %s %s %s %s", pm.Encode(), fga.EncodeAux(fga.Aux(pm, pts, prq.User)),
+				fga.EncodeTuples("tuples", pt), fga.EncodeTuples("ctx", nil), prq.Encode()))
+		}
+	}
 	// large fan-out through the weight-two set operations (several batches of the fast-path streams):
 	// member = (a or b) but not c / (a and b), the subject is in a few hundred groups, the document
 	// names one of the LAST ones.
